@@ -1,3 +1,5 @@
+import WS.Lemmas.JoinLaw
+import WS.Lemmas.ReaderZ
 import WS.Lemmas.SrcLaw
 import WS.Lemmas.Mask
 import WS.Lemmas.ReaderDecodes
@@ -79,6 +81,60 @@ theorem abandon_then_next (c : Conn) (hc : ReaderIdle c) (t1 t2 : Nat) (ht1 : t1
 example :
     let b : Buf := { size := 3, t := { chunks := [[1, 2], [3, 4, 5]] } }
     (b.take 2).1 = [1, 2] ∧ ((b.take 2).2.2.read 9).1 = [3, 4, 5] := by decide
+
+open WS.Codec WS.ReaderDecodes WS.ReaderZ in
+/-- read_message for permessage-deflate: a compressed message (RSV1 on its first data frame,
+    compression negotiated) is announced as compressed and what the message reader hands to the
+    decompressor — reads of any size, any fragmentation, interleaved pings/pongs, any chunking and
+    buffer size, either role — is exactly the concatenation of the data frames' payloads, i.e. the
+    peer's deflate stream (compress/flate itself is environment) -/
+theorem read_compressed_message (c : Conn) (hc : ReaderIdle c) (hn : c.r.nego = true) (t : Nat) (ht : t = 1 ∨ t = 2)
+    (f : PFrame) (more : List PFrame) (hs : ZShape t f more) (rest : Bytes)
+    (hp : c.r.buf.pending = encZ c.r.isServer f ++ encAll c.r.isServer more ++ rest)
+    (hend : c.r.buf.t.together = false ∨ rest ≠ [])
+    (hsz : (f.payload ++ dataPayload more).length < 2 ^ 62)
+    (hlim : c.r.limit ≤ 0 ∨ (((f.payload ++ dataPayload more).length : Nat) : Int) ≤ c.r.limit)
+    (k : Nat) (hk : 0 < k) :
+    ∃ c1 rid, nextReader c = (.msg t rid true, c1) ∧
+      ∃ c2, readAll c1 rid k = ((f.payload ++ dataPayload more, none), c2) ∧ ReaderIdle c2 ∧
+        c2.r.buf.pending = rest ∧ c2.r.hlog = c.r.hlog ++ ctlEvents more := by
+  first | exact ReaderZ.read_compressed_message .. | (apply ReaderZ.read_compressed_message <;> assumption)
+
+open WS.Codec WS.ReaderDecodes WS.ReaderZ in
+/-- … and the same bytes are refused (nothing delivered, no handler run) when compression was not negotiated -/
+theorem compressed_frame_refused_when_not_negotiated (c : Conn) (hc : ReaderIdle c) (hn : c.r.nego = false)
+    (t : Nat) (ht : t = 1 ∨ t = 2) (f : PFrame) (hf : f.op = t) (tail : Bytes)
+    (hp : c.r.buf.pending = encZ c.r.isServer f ++ tail) (hcnt : c.r.errCount = 0) :
+    ∃ msg c', nextReader c = (.err (.protocol msg), c') ∧ c'.r.hlog = c.r.hlog := by
+  first | exact ReaderZ.compressed_frame_refused_when_not_negotiated .. | (apply ReaderZ.compressed_frame_refused_when_not_negotiated <;> assumption)
+
+open WS.Codec WS.ReaderDecodes WS.JoinLaw in
+/-- through JoinMessages: reading the joined reader with reads of any size delivers exactly
+    payload ++ terminator for a message … -/
+theorem join_message (c : Conn) (hc : ReaderIdle c) (t : Nat) (ht : t = 1 ∨ t = 2) (fs : List PFrame)
+    (hs : MsgShape t fs) (rest : Bytes)
+    (hp : c.r.buf.pending = encAll c.r.isServer fs ++ rest)
+    (hend : c.r.buf.t.together = false ∨ rest ≠ [])
+    (hsz : (dataPayload fs).length < 2 ^ 62) (hlim : c.r.limit ≤ 0)
+    (term : Bytes) (k : Nat) (hk : 0 < k) (fuel : Nat) (hf : (dataPayload fs).length + term.length + 3 ≤ fuel) :
+    ∃ c', joinMsg fuel c .idle term k [] = ((dataPayload fs ++ term, none), c', .idle) ∧
+      ReaderIdle c' ∧ c'.r.buf.pending = rest ∧ c'.r.hlog = c.r.hlog ++ ctlEvents fs := by
+  first | exact JoinLaw.join_message .. | (apply JoinLaw.join_message <;> assumption)
+
+open WS.Codec WS.ReaderDecodes WS.JoinLaw in
+/-- … and payload₁ ++ term, then payload₂ ++ term for two, nothing mixed -/
+theorem join_two_messages (c : Conn) (hc : ReaderIdle c) (t1 t2 : Nat) (ht1 : t1 = 1 ∨ t1 = 2) (ht2 : t2 = 1 ∨ t2 = 2)
+    (fs1 fs2 : List PFrame) (hs1 : MsgShape t1 fs1) (hs2 : MsgShape t2 fs2) (rest : Bytes)
+    (hp : c.r.buf.pending = encAll c.r.isServer fs1 ++ encAll c.r.isServer fs2 ++ rest)
+    (hend : c.r.buf.t.together = false ∨ rest ≠ [])
+    (hsz : (dataPayload fs1).length < 2 ^ 62 ∧ (dataPayload fs2).length < 2 ^ 62) (hlim : c.r.limit ≤ 0)
+    (term : Bytes) (k : Nat) (hk : 0 < k) (fuel : Nat)
+    (hf : (dataPayload fs1).length + (dataPayload fs2).length + term.length + 3 ≤ fuel) :
+    ∃ c1 c2, joinMsg fuel c .idle term k [] = ((dataPayload fs1 ++ term, none), c1, .idle) ∧
+      joinMsg fuel c1 .idle term k [] = ((dataPayload fs2 ++ term, none), c2, .idle) ∧
+      ReaderIdle c2 ∧ c2.r.buf.pending = rest := by
+  exact JoinLaw.join_two_messages c hc t1 t2 ht1 ht2 fs1 fs2 hs1 hs2 rest hp hend hsz hlim term k hk fuel hf
+
 
 /-! ### non-vacuity -/
 section NonVacuity
